@@ -301,8 +301,10 @@ def trieStep (st : TState) (line : String) : TState × String :=
   | ["ppub", k, ts] =>
     match hexArg k, natArg ts with
     | some k, some ts =>
-      -- F10: the trie is queried with the internal key
-      let ids := (st.pub.trie.get (keyWithTs k ts)).filter (fun id => st.pub.okSubs.contains id)
+      -- the trie is queried with the user key (`y.ParseKey(e.Key)`; before the fix of finding F10
+      -- it was queried with the internal key `keyWithTs k ts`)
+      let _ := ts
+      let ids := (st.pub.trie.get k).filter (fun id => st.pub.okSubs.contains id)
       (st, idsStr ids)
     | _, _ => (st, "bad-op")
   | ["add", p, ig, id] =>
